@@ -83,7 +83,8 @@ class Ctx:
         self.t0 = time.time()
         self.alt = os.path.realpath(REPO) != "/repo"   # development aid: checking a scratch worktree
         self.alt_tag = hashlib.sha1(REPO.encode()).hexdigest()[:8] if self.alt else ""
-        self.outdir = os.path.join(OUT, pid + ("-" + self.alt_tag if self.alt else ""))
+        # one scratch directory per run (tier + process id): two runs of the same check never share files
+        self.outdir = os.path.join(OUT, pid + ("-" + self.alt_tag if self.alt else ""), f"{tier}-p{os.getpid()}")
         os.makedirs(self.outdir, exist_ok=True)
         os.makedirs(os.path.join(OUT, "bin"), exist_ok=True)
         self.obligations = []      # [{name, kind, ok, detail}]
@@ -177,7 +178,7 @@ class Ctx:
         except OSError:
             pass
         # one binary per (command, property): checks sharing a harness command do not race on it
-        binp = os.path.join(OUT, "bin", cmd + "-" + self.pid + ("-race" if race else ""))
+        binp = os.path.join(OUT, "bin", cmd + "-" + self.pid + "-" + self.tier + ("-race" if race else ""))
         if os.path.exists(binp):
             os.remove(binp)  # never run a stale binary
         env = dict(GOENV)
@@ -190,7 +191,7 @@ class Ctx:
             open(alt, "w").write(mod)
             shutil.copy(dst_sum, os.path.join(OUT, f"alt-{tag}.sum"))
             args += ["-modfile", alt]
-            binp = os.path.join(OUT, "bin", cmd + "-" + self.pid + "-" + tag + ("-race" if race else ""))
+            binp = os.path.join(OUT, "bin", cmd + "-" + self.pid + "-" + self.tier + "-" + tag + ("-race" if race else ""))
         if race:
             args.append("-race")
             env["CGO_ENABLED"] = "1"
@@ -365,6 +366,8 @@ def finish(ctx, search=None):
     write_evidence(ctx, violations, known=[k["sig"] for k in known], known_observed=sorted(seen_k))
     for l in lines:
         print(l)
+    if not violations and not os.environ.get("VERIF_KEEP"):
+        shutil.rmtree(ctx.outdir, ignore_errors=True)   # traces of a clean run are not needed any more
     ok = sum(1 for o in ctx.obligations if o["ok"])
     print(f"[{ctx.pid}] tier={ctx.tier} seed={ctx.seed} obligations={len(ctx.obligations)} discharged={ok} "
           f"evaluations={ctx.evaluations} violations={violations} wall={time.time() - ctx.t0:.1f}s")
